@@ -72,6 +72,9 @@ func main() {
 			if c.Thorough() {
 				n = 8
 			}
+			if scs[i].Staged {
+				n = 16 // the largest schedule trees: spread them over all processes
+			}
 			for k := 0; k < n; k++ {
 				units = append(units, unit{i, k, n})
 			}
